@@ -37,7 +37,9 @@ from .constants import DIAMETER_AGENT_CLIENT_MODE
 from .constants import DIAMETER_AGENT_SERVER_MODE
 from .constants import DIAMETER_AGENT_TRANSPORT_TYPE_TCP
 from .constants import DIAMETER_AGENT_TRANSPORT_TYPE_SCTP
+from .exceptions import AVPAttributeValueError
 from .exceptions import AVPParsingError
+from .exceptions import DataTypeError
 from .exceptions import DiameterApplicationError
 from .exceptions import DiameterAssociationError
 from .messages import DiameterAnswer
@@ -186,12 +188,12 @@ class DiameterAssociation(object):
                 
                 diameter_conn_logger.debug(f"Found {len(msgs)} Diameter "\
                                            f"Message(s).")
-            except AVPParsingError:
-                diameter_conn_logger.exception(f"AVPParsingError has "\
-                                               f"been raised due stream: "\
-                                               f"{self.transport._recv_data_stream.hex()}")
-
-            self.lock.release()
+            except (AVPParsingError, AVPAttributeValueError, DataTypeError):
+                diameter_conn_logger.exception(f"Malformed data stream has "\
+                                               f"been discarded: "\
+                                               f"{data_stream.hex()}")
+            finally:
+                self.lock.release()
 
 
     def put_message_into_send_queue(self, msg: Type[DiameterMessage]) -> None:
